@@ -445,3 +445,54 @@ def r7(ctx: Ctx) -> None:
 
     n = check_instance_state(ctx, "Fundamentals")
     ctx.require(n >= 3, "Fundamentals: containers changed in place not found (prices, drifts, correlation, ... expected)")
+
+
+@rule("C12.R8", "every configured correlation reaches the generator and stays there: the runner passes each pairwise entry on, in whatever order its two markets are named, and only set_correlation / remove_correlation change the table", "T4 + T1", floor=2)
+def r8(ctx: Ctx) -> None:
+    q = "SequentialRunner._set_fundamental_correlation"
+    f = ctx.func(q)
+    n = 0
+    for p in normal_paths(ctx.paths(q)):
+        for l in [x for x in p.walk_events(True) if x.kind == "loop"]:
+            for bp in l.paths:
+                sets = [e for e in calls(bp, into_loops=False) if e.name == "set_correlation"]
+                if sets:
+                    n += 1
+                    ctx.check(len(sets) == 1, f, sets[0].node, "one set_correlation per configured pair", "exactly one call", f"{len(sets)} calls")
+                    c = kw(sets[0], "corr", 2)
+                    okc = c is not None and "corr" in key(strip_ver(c))
+                    ctx.check(okc, f, sets[0].node, "the configured coefficient is passed on", "corr=float(corr)", short(c))
+                # an iteration that ends without the call although nothing was wrong with the entry
+                skipped = bp.exit[0] in ("continue", "fall") and not sets and not [il for il in bp.events if il.kind == "loop"] and any(
+                    e.name == "set_correlation" for o in l.paths for e in calls(o, into_loops=False))
+                if skipped:
+                    ordering = [strip_ver(c) for c, pol, _ in bp.conds if strip_ver(c)[0] == "cmp" and strip_ver(c)[1] in ("<", "<=") and "market_id" in key(strip_ver(c))]
+                    if ordering:
+                        ctx.violated(f, l.node, "a configured pair is registered whichever of its two markets is named first", "no skip that depends on the order of the two ids (set_correlation is symmetric)", "skipped under " + short(ordering[0]))
+                    else:
+                        ctx.unrec(f, l.node, "every configured pair is passed on", "an iteration ends without set_correlation", bp.describe()[:140])
+    ctx.require(n >= 1, f"{q}: no path that registers a correlation")
+    # the table itself
+    allowed = {"Fundamentals.__init__", "Fundamentals.set_correlation", "Fundamentals.remove_correlation"}
+    for w in ctx.cg.writers_of("Fundamentals", "correlation"):
+        if w.func.qualname in allowed:
+            ctx.holds(w.func, w.node, "writer of the correlation table", "set_correlation | remove_correlation", w.func.qualname)
+            continue
+        # somebody else rebuilds / edits the table: only entries of a market that is being removed may go
+        g = w.func
+        verdict = None
+        for hp in normal_paths(ctx.paths(g.qualname)):
+            for e in [x for x in hp.walk_events(True) if x.kind == "store" and x.attr == "correlation"]:
+                from ..terms import normalise
+
+                v = normalise(strip_ver(e.value))
+                if v[0] == "comp" and len(v[3]) == 1 and key(v[3][0][1]) == "self.correlation.items()":
+                    conds = v[3][0][2]
+                    mentions_state = any(s_[0] == "attr" and s_[1] == ("sym", "self") for c in conds for s_ in subterms(c))
+                    verdict = False if mentions_state else (verdict if verdict is not None else True)
+        if verdict is True:
+            ctx.holds(g, w.node, "entries are dropped from the correlation table only for the market being removed", "filter on the removed id only", g.qualname)
+        elif verdict is False:
+            ctx.violated(g, w.node, "entries are dropped from the correlation table only for the market being removed", "filter on the removed id only", f"{g.qualname} filters the table by the object's current state: correlations configured for markets that are not registered (yet) are lost")
+        else:
+            ctx.unrec(g, w.node, "writer of the correlation table", "an unexpected writer whose effect on the configured correlations is not modelled", g.qualname)
